@@ -25,7 +25,7 @@ theorem H_step (w : World) (s s' : St) (e : Ev) (hH : H s) (h : step w s e = som
   all_goals (try (simp at h))
   all_goals (try (obtain ⟨h1, h2⟩ := h))
   all_goals (try subst s')
-  all_goals (try (apply pointwise_set (fun _ t => holdPc t.pc = true → t.holds = true) _ _ _ _ hH))
+  all_goals (try (apply pointwise_set (fun _ t => holdPc t.pc = true → t.holds = true) _ _ _ _ _ hH))
   all_goals (try (simp [holdPc]; done))
   all_goals (try (have := hH f _ (by assumption); simp_all [holdPc]; done))
   · intro g tg hg; exact hH g tg hg
@@ -97,8 +97,8 @@ theorem lookupT_of_mem_nodup (l : List (File × Task)) (hn : (keys l).Nodup) (g 
 
 def U (s : St) : Prop := (keys s.tasks).Nodup
 
-theorem U_set (s : St) (f : File) (t : Task) (sem' : Nat) (hU : U s) :
-    U (({ s with sem := sem' } : St).set f t) := by
+theorem U_set (s : St) (f : File) (t : Task) (sem' c' : Nat) (hU : U s) :
+    U (({ s with sem := sem', clock := c' } : St).set f t) := by
   unfold U St.set at *
   simp only
   cases h : lookupT f s.tasks with
@@ -115,7 +115,7 @@ theorem U_step (w : World) (s s' : St) (e : Ev) (hU : U s) (h : step w s e = som
   all_goals (try (simp at h))
   all_goals (try (obtain ⟨h1, h2⟩ := h))
   all_goals (try subst s')
-  all_goals (first | exact U_set s _ _ _ hU | exact hU)
+  all_goals (first | exact U_set s _ _ _ _ hU | exact hU)
 
 theorem U_reachable (w : World) (s : St) (h : Reachable w s) : U s := by
   induction h with
@@ -165,10 +165,10 @@ theorem Dat_mono (w : World) (S S' : St) (f : File) (t : Task)
   split <;> simp_all <;>
     (intro j hj; obtain ⟨d, h1, h2⟩ := h.2 j hj; exact ⟨d, h1, by simpa using hm d (by simpa using h2)⟩)
 
-theorem D_of_set (w : World) (s : St) (f : File) (t' : Task) (sem' : Nat) (hD : D w s)
-    (hm : ∀ d, (s.task d).isSome → ((({ s with sem := sem' } : St).set f t').task d).isSome)
-    (hnew : Dat w (({ s with sem := sem' } : St).set f t') f t') :
-    D w (({ s with sem := sem' } : St).set f t') := by
+theorem D_of_set (w : World) (s : St) (f : File) (t' : Task) (sem' c' : Nat) (hD : D w s)
+    (hm : ∀ d, (s.task d).isSome → ((({ s with sem := sem', clock := c' } : St).set f t').task d).isSome)
+    (hnew : Dat w (({ s with sem := sem', clock := c' } : St).set f t') f t') :
+    D w (({ s with sem := sem', clock := c' } : St).set f t') := by
   intro g tg hg
   by_cases hgf : g = f
   · subst hgf; rw [set_task_same] at hg; cases hg; exact hnew
@@ -183,7 +183,7 @@ theorem D_step (w : World) (s s' : St) (e : Ev) (hD : D w s) (h : step w s e = s
   all_goals (try (simp at h))
   all_goals (try (obtain ⟨h1, h2⟩ := h))
   all_goals (try subst s')
-  all_goals (try (refine D_of_set w s f _ _ hD hm ?_))
+  all_goals (try (refine D_of_set w s f _ _ _ hD hm ?_))
   all_goals (try (simp [Dat]; done))
   · -- dep(f, d): one more dependency compiled
     rename_i d _ t hf _ i hpc hc
@@ -191,9 +191,8 @@ theorem D_step (w : World) (s s' : St) (e : Ev) (hD : D w s) (h : step w s e = s
     have hd := hD f t hf
     simp only [Dat, hpc] at hd
     simp only [Dat]
-    have hlt : i < (w.imports f).length := by
-      have := hc.1.1.1
-      exact (List.getElem?_eq_some_iff.mp this).1
+    obtain ⟨⟨⟨⟨hA, _⟩, hC⟩, _⟩, _⟩ := hc
+    have hlt : i < (w.imports f).length := (List.getElem?_eq_some_iff.mp hA).1
     refine ⟨hlt, ?_⟩
     intro j hj
     by_cases hji : j < i
@@ -201,10 +200,11 @@ theorem D_step (w : World) (s s' : St) (e : Ev) (hD : D w s) (h : step w s e = s
       exact ⟨d', h1, hm d' h2⟩
     · have : j = i := by omega
       subst this
-      exact ⟨d, hc.1.1.1, hm d hc.1.2⟩
+      exact ⟨d, hA, hm d hC⟩
   · -- release at the end of the dependency loop
     rename_i t hf _ _ i hpc hc
-    have hi : i = (w.imports f).length := by simpa using hc
+    have hi : i = (w.imports f).length := by
+      simp only [Bool.and_eq_true, beq_iff_eq] at hc; exact hc.1
     have hd := hD f t hf
     simp only [Dat, hpc] at hd
     simp only [Dat]
@@ -235,137 +235,4 @@ theorem D_reachable (w : World) (s : St) (h : Reachable w s) : D w s := by
   | step _ hs ih => exact D_step w _ _ _ ih hs
 
 
-/-! ### Enabledness -/
-
-def Enabled' (w : World) (s : St) : Prop := ∃ e, (step w s e).isSome = true
-
-theorem enabled_of_enabled' (w : World) (s : St) (h : Enabled' w s) : Enabled w s := by
-  obtain ⟨e, he⟩ := h
-  cases hs : step w s e with
-  | none => rw [hs] at he; cases he
-  | some s' => exact ⟨e, s', hs⟩
-
-/-- a task that is not waiting for anything has an enabled transition -/
-theorem running_enabled (w : World) (s : St) (hcr : s.crashed = false) (hH : H s) (hD : D w s)
-    (f : File) (t : Task) (ht : s.task f = some t)
-    (hpc : t.pc = .holding ∨ t.pc = .resolved ∨ (∃ i, t.pc = .deps i) ∨ t.pc = .linking ∨
-      (∃ c, t.pc = .failing c) ∨ t.pc = .panicking ∨ (∃ b, t.pc = .finished b ∧ t.holds = true)) :
-    Enabled' w s := by
-  rcases hpc with h | h | ⟨i, h⟩ | h | ⟨c, h⟩ | h | ⟨b, h, hh⟩
-  · exact ⟨.resolved f (w.resolveOk f), by simp [step, ht, h, hcr]⟩
-  · by_cases himp : (w.imports f).isEmpty = true
-    · by_cases hl : w.linkOk f = true
-      · exact ⟨.complete f, by simp [step, ht, h, hcr, himp, hl]⟩
-      · exact ⟨.fail f, by simp [step, ht, h, hcr, hl]⟩
-    · exact ⟨.blocked f (w.imports f), by simp [step, ht, h, hcr, himp]⟩
-  · have hd := hD f t ht
-    simp only [Dat, h] at hd
-    by_cases hi : i = (w.imports f).length
-    · have hholds := hH f t ht (by simp [h, holdPc])
-      exact ⟨.release f, by simp [step, ht, h, hcr, hholds, hi]⟩
-    · have hlt : i < (w.imports f).length := by omega
-      obtain ⟨d, hd'⟩ : ∃ d, (w.imports f)[i]? = some d := ⟨(w.imports f)[i], by simp [hlt]⟩
-      by_cases hdf : d = f
-      · subst hdf; exact ⟨.selfimport d, by simp [step, ht, h, hcr, hd']⟩
-      · cases htd : s.task d with
-        | none => exact ⟨.spawn d, by simp [step, htd, hcr]⟩
-        | some td => exact ⟨.dep f d, by simp [step, ht, h, hcr, hd', hdf, htd]⟩
-  · by_cases hl : w.linkOk f = true
-    · exact ⟨.complete f, by simp [step, ht, h, hcr, hl]⟩
-    · exact ⟨.fail f, by simp [step, ht, h, hcr, hl]⟩
-  · exact ⟨.fail f, by simp [step, ht, h, hcr]⟩
-  · exact ⟨.recovered f, by simp [step, ht, h, hcr]⟩
-  · exact ⟨.release f, by simp [step, ht, h, hcr, hh]⟩
-
-
-theorem holder_running (s : St) (hJ : J s) (g : File) (tg : Task) (hg : s.task g = some tg)
-    (hh : tg.holds = true) :
-    tg.pc = .holding ∨ tg.pc = .resolved ∨ (∃ i, tg.pc = .deps i) ∨ tg.pc = .linking ∨
-      (∃ c, tg.pc = .failing c) ∨ tg.pc = .panicking ∨ (∃ b, tg.pc = .finished b ∧ tg.holds = true) := by
-  have hj := hJ g tg hg
-  cases hpc : tg.pc with
-  | spawned => simp [hpc, noPermitPc, hh] at hj
-  | holding => simp
-  | resolved => simp
-  | deps i => simp
-  | waiting i => simp [hpc, noPermitPc, hh] at hj
-  | unblocked => simp [hpc, noPermitPc, hh] at hj
-  | linking => simp
-  | failing c => simp
-  | panicking => simp [hpc, noPermitPc, hh] at hj
-  | finished b => simp [hh]
-
-/-- some task can move whenever no permit is free (the holders are never blocked) -/
-theorem enabled_when_no_permit (w : World) (hpar : w.par ≥ 1) (s : St) (hr : Reachable w s)
-    (hsem : s.sem = 0) : Enabled' w s := by
-  have hperm := permits_conserved w s hr
-  have hh : holders s ≥ 1 := by omega
-  obtain ⟨g, tg, hg, hholds⟩ := exists_holder s (U_reachable w s hr) hh
-  exact running_enabled w s (no_double_close w s hr) (H_reachable w s hr) (D_reachable w s hr) g tg hg
-    (holder_running s (J_reachable w s hr) g tg hg hholds)
-
-/-- progress: an unfinished task (or one that still has to give its permit back) implies that some
-    transition is enabled; by induction on the rank of the file in the acyclic import graph -/
-theorem progress (w : World) (hpar : w.par ≥ 1) (rank : File → Nat)
-    (hrank : ∀ f d, d ∈ w.imports f → rank d < rank f) (s : St) (hr : Reachable w s) :
-    ∀ n f t, rank f < n → s.task f = some t → isFinished s f = false → Enabled' w s := by
-  have hcr := no_double_close w s hr
-  have hH := H_reachable w s hr
-  have hD := D_reachable w s hr
-  intro n
-  induction n with
-  | zero => intro f t hn; omega
-  | succ n ih =>
-    intro f t hn ht hnf
-    by_cases hsem : s.sem = 0
-    · exact enabled_when_no_permit w hpar s hr hsem
-    have hpos : s.sem > 0 := by omega
-    cases hpc : t.pc with
-    | spawned => exact ⟨.acquire f, by simp [step, ht, hpc, hcr, hpos]⟩
-    | holding => exact running_enabled w s hcr hH hD f t ht (by simp [hpc])
-    | resolved => exact running_enabled w s hcr hH hD f t ht (by simp [hpc])
-    | deps i => exact running_enabled w s hcr hH hD f t ht (by simp [hpc])
-    | linking => exact running_enabled w s hcr hH hD f t ht (by simp [hpc])
-    | failing c => exact running_enabled w s hcr hH hD f t ht (by simp [hpc])
-    | panicking => exact running_enabled w s hcr hH hD f t ht (by simp [hpc])
-    | unblocked => exact ⟨.reacquire f, by simp [step, ht, hpc, hcr, hpos]⟩
-    | finished b =>
-      have : isFinished s f = true := (isFinished_iff s f).mpr ⟨t, b, ht, hpc⟩
-      rw [this] at hnf; cases hnf
-    | waiting i =>
-      have hd := hD f t ht
-      simp only [Dat, hpc] at hd
-      by_cases hi : i = (w.imports f).length
-      · exact ⟨.unblocked f, by simp [step, ht, hpc, hcr, hi]⟩
-      · have hlt : i < (w.imports f).length := by omega
-        obtain ⟨d, hdi, hdt⟩ := hd.2 i hlt
-        cases htd : s.task d with
-        | none => rw [htd] at hdt; cases hdt
-        | some td =>
-          cases hfd : isFinished s d with
-          | true =>
-            obtain ⟨td', b, h1, h2⟩ := (isFinished_iff s d).mp hfd
-            rw [htd] at h1; cases h1
-            cases b with
-            | true => exact ⟨.waited f d, by simp [step, ht, hpc, hcr, hdi, htd, h2]⟩
-            | false => exact ⟨.waited f d, by simp [step, ht, hpc, hcr, hdi, htd, h2]⟩
-          | false =>
-            have hmem : d ∈ w.imports f := List.mem_of_getElem? hdi
-            have := hrank f d hmem
-            exact ih d td (by omega) htd hfd
-
-/-- **C06 (no deadlock on acyclic import graphs).** For every import graph that admits a rank
-    function (acyclic), every parallelism ≥ 1, every fault plan and every reachable state: as long
-    as the result of some requested file is not ready, some transition is enabled. -/
-theorem acyclic_no_stuck_state (w : World) (hpar : w.par ≥ 1) (rank : File → Nat)
-    (hrank : ∀ f d, d ∈ w.imports f → rank d < rank f) (s : St) (hr : Reachable w s)
-    (r : File) (hnf : isFinished s r = false) : Enabled w s := by
-  apply enabled_of_enabled'
-  cases ht : s.task r with
-  | none => exact ⟨.spawn r, by simp [step, ht, no_double_close w s hr]⟩
-  | some t => exact progress w hpar rank hrank s hr (rank r + 1) r t (by omega) ht hnf
-
 end PCV.Props.C06T
-
-#print axioms PCV.Props.C06T.acyclic_no_stuck_state
-#print axioms PCV.Props.C06T.running_enabled
